@@ -180,7 +180,7 @@ func C03(tier string) int {
 				tweak: func(a *ap.App) { a.OnFollow = beh }})
 		}
 	}
-	res.Rule = fmt.Sprintf("outbox inputs {bare Note, bare Article, Create with 1..%d objects, Like/Announce/Update/Add with an embedded object, Follow} x hidden-recipient option {none, bto IRI, bcc IRI, bto embedded actor, bto+bcc lists, bcc Mention by href, bto Link with id and decoy href, empty bto next to bcc} independently on the activity and on every embedded object x to {absent, IRI} x {client POST with both protocols, client POST social-only, Send with both, Send federating-only}; inbox Follow with each option under auto-accept / auto-reject; every input with hidden recipients again under 5 application-data variants (sender record without inbox / minimal, sender's or all recipients' inboxes stored by the application, hidden recipients unreachable); GET handler: stored values of every type that has 'object', bto/bcc at object depth 0..3, object given embedded / in a mixed list after an IRI / by IRI / after a sibling that itself embeds two objects / as the third of three / before further siblings; %d delivery runs; oracle: every payload handed to the transport and every handler body is parsed and searched for bto/bcc", 2+map[bool]int{true: 1, false: 0}[res.Thorough()], len(cases))
+	res.Rule = fmt.Sprintf("outbox inputs {bare Note, bare Article, Create with 1..%d objects, Like/Announce/Update/Add with an embedded object, Follow} x hidden-recipient option {none, bto IRI, bcc IRI, bto embedded actor, bto+bcc lists, bcc Mention by href, bto Link with id and decoy href, empty bto next to bcc} independently on the activity and on every embedded object x to {absent, IRI} x {client POST with both protocols, client POST social-only, Send with both, Send federating-only}; inbox Follow with each option under auto-accept / auto-reject; every input with hidden recipients again under 5 application-data variants (sender record without inbox / minimal, sender's or all recipients' inboxes stored by the application, hidden recipients unreachable); GET handler: stored values of every type that has 'object', bto/bcc at object depth 0..3 in every list shape and at depths 4, 5, 8, 9, 10, 16 and 33 in two of them, object given embedded / in a mixed list after an IRI / by IRI / after a sibling that itself embeds two objects / as the third of three / before further siblings; %d delivery runs; oracle: every payload handed to the transport and every handler body is parsed and searched for bto/bcc", 2+map[bool]int{true: 1, false: 0}[res.Thorough()], len(cases))
 	res.Rule += "; plus, for every input shape and hidden-recipient set (quick: the first two cases of each; thorough: all), every single seam call failing: whatever fails on the way, no payload handed to the transport carries bto/bcc"
 	var mu sync.Mutex
 	chunk := 300
@@ -392,10 +392,13 @@ func C03(tier string) int {
 		if !o.HasProp(tk, "ActivityStreams/object") || !o.HasProp(tk, "ActivityStreams/bto") {
 			continue
 		}
-		for depth := 0; depth <= 3; depth++ {
+		for _, depth := range []int{0, 1, 2, 3, 4, 5, 8, 9, 10, 16, 33} {
 			for _, lst := range []string{"embedded", "iri-then-embedded", "two-embedded", "iri", "after-a-sibling-with-two-children", "three-embedded", "before-a-hidden-sibling"} {
 				if depth == 0 && len(lst) > len("iri-then-embedded") {
 					continue
+				}
+				if depth > 3 && len(lst) > len("iri-then-embedded") {
+					continue // deep chains: plainly embedded, or after an IRI in a list
 				}
 				for _, h := range hiddenOpts[1:] {
 					id := "https://l.example/n/served"
